@@ -110,6 +110,14 @@ SETTING_VALUES: dict[str, tuple[str, str]] = {
 SETTINGS = list(SETTING_VALUES)
 MSG_NAMES = POOL + ["locale", "count", "translations"]
 
+# Names of the rendered partial: with and without directories / extensions; several have a
+# default alias (file name up to the first dot) that is itself a pool name, so every kind of
+# caller binding collides with it.
+PARTIAL_NAMES = ["p", "product", "snippets/product.liquid", "a.b/card.html", "item", "x.html", "cards/i.liquid",
+                 "b", "partials/a.b.c"]
+# Other names an engine might derive from the tag: macro name, block name, nested partial, ...
+TAG_DERIVED = ["m", "row", "q", "template", "self", "partial", "include", "render"]
+
 DUMP_NAMES = "[" + ";".join(f"{n}={{{{ {n} }}}}" for n in POOL) + "]"
 DUMP = (
     "[" + ";".join(f"{n}={{{{ {n} }}}}" for n in POOL)
@@ -441,9 +449,15 @@ class Pair:
         for n in r.sample(POOL, r.choice([0, 0, 1, 2, 3])):
             self.data[n] = f"GLOBAL-{n}"
         self.construct = r.choice(["render", "render", "render-with", "render-for", "call", "call"])
+        self.pname = r.choice(PARTIAL_NAMES)
+        segs = [x for x in re.split(r"[/.]", self.pname) if re.fullmatch(r"[A-Za-z_]\w*", x)]
+        # names a caller may bind that an engine could derive from the tag (and the body probes)
+        self.derived = list(dict.fromkeys(segs + TAG_DERIVED))
+        self.alias = self.pname.split("/")[-1].split(".")[0]
+        self.dump = DUMP[:-1] + ";" + ";".join(f"{n}={{{{ {n} }}}}" for n in self.derived if n not in POOL) + "]"
         self.prefix = [self._prefix_stmt(k) for k in range(r.randint(1, 6))]
         self.wraps = self._wraps()
-        self.body = [("dump", DUMP)] + [self._body_stmt(k) for k in range(r.randint(1, 6))] + [("dump", DUMP)]
+        self.body = [("dump", self.dump)] + [self._body_stmt(k) for k in range(r.randint(1, 6))] + [("dump", self.dump)]
         self._tag()
         self.suffix_in = "[s:" + ";".join(f"{{{{ {n} }}}}" for n in POOL) + "]" + "".join(
             f"{{% increment {n} %}}" for n in r.sample(POOL, 2))
@@ -456,7 +470,12 @@ class Pair:
     def _name(self) -> str:
         """A name for a caller-side binding: the shared pool, or (30 %) a name the engine
         reads by name (settings of the l10n filters, `translations`, `count`, `now`, `today`)."""
-        return self.r.choice(SETTINGS) if self.r.random() < 0.3 else self.r.choice(POOL)
+        x = self.r.random()
+        if x < 0.25:
+            return self.r.choice(SETTINGS)
+        if x < 0.45:  # the partial's default alias / path segments, macro, block, tag names
+            return self.r.choice(self.derived)
+        return self.r.choice(POOL)
 
     @staticmethod
     def _lit(n: str, tagk: str, v: int) -> str:
@@ -710,7 +729,7 @@ class Pair:
         elif kind == "macro":
             src = f"{{% macro bm {n} %}}({{{{ {n} }}}}){{% endmacro %}}{{% call bm 'z' %}}"
         else:
-            kind, src = "dump", DUMP
+            kind, src = "dump", self.dump
         return (f"{kind}:{n}" if kind != "dump" else "dump", src)
 
     def _tag(self) -> None:
@@ -719,13 +738,14 @@ class Pair:
         self.macro_params = ""
         if c == "render":
             kws = [f"{n}: {r.choice(GVALS)}" for n in r.sample(POOL, r.choice([0, 1, 1, 2]))]
-            self.tag = "{% render 'p'" + "".join(", " + k for k in kws) + " %}"
+            self.tag = f"{{% render '{self.pname}'" + "".join(", " + k for k in kws) + " %}"
         elif c == "render-with":
             alias = r.choice([f" as {r.choice(POOL)}", ""])
             extra = r.choice(["", f", {r.choice(POOL)}: {r.choice(GVALS)}"])
-            self.tag = f"{{% render 'p' with {r.choice(GVALS[:7])}{alias}{extra} %}}"
+            self.tag = f"{{% render '{self.pname}' with {r.choice(GVALS[:7])}{alias}{extra} %}}"
         elif c == "render-for":
-            self.tag = f"{{% render 'p' for {r.choice(['garr', 'gs'])} as {r.choice(POOL)} %}}"
+            alias = r.choice([f" as {r.choice(POOL)}", f" as {r.choice(POOL)}", ""])
+            self.tag = f"{{% render '{self.pname}' for {r.choice(['garr', 'gs'])}{alias} %}}"
         else:
             params = r.sample(POOL, r.choice([0, 1, 2, 3]))
             ps = []
@@ -765,8 +785,8 @@ class Pair:
         if self.construct == "call":
             macrodef = f"{{% macro m{self.macro_params} %}}{body_src}{{% endmacro %}}"
         else:
-            partials["p"] = body_src
-        partials["q"] = "(q" + DUMP + ")"
+            partials[self.pname] = body_src
+        partials["q"] = "(q" + self.dump + ")"
         tag = self.tag if with_tag else ""
         if variant == 0:
             return macrodef + RL + tag + RR
@@ -928,6 +948,20 @@ def run_pair(rt: Rt, seed: str, j: int, tier: str) -> None:
         f"wrap-{w['kind']}:{w['name']}" for w in pair.wraps if w["name"] in SETTING_VALUES]
     for b in bound:
         ctx.seen("caller_bindings_of_names_read_by_name", b)
+    ctx.seen("partial_names", pair.pname)
+    dbound = []
+    for kind_, name_ in [(st["kind"], st["name"]) for st in pair.prefix] + [
+            ("wrap-" + w["kind"], w["name"]) for w in pair.wraps]:
+        if name_ == pair.alias and pair.construct != "call":
+            dbound.append(f"{kind_}:default-alias")
+        elif name_ in pair.derived:
+            dbound.append(f"{kind_}:{name_ if name_ in TAG_DERIVED else 'path-segment'}")
+    for b in dbound:
+        ctx.seen("caller_bindings_of_tag_derived_names", b)
+    if dbound:
+        ctx.count("pairs_caller_binds_tag_derived_name")
+    if any(b.endswith(":default-alias") for b in dbound):
+        ctx.count("pairs_caller_binds_partial_default_alias")
     for b in byname:
         ctx.seen("by_name_body_kinds", b)
     if byname:
@@ -1753,6 +1787,10 @@ def floors(tier: str) -> dict[str, int]:
         "fault_injections_raised": 500 * k,
         "lambda_scopes_pushed": 500 * k,
         "pairs_inside_overriding_block": 300 * k,
+        "pairs_caller_binds_tag_derived_name": 500 * k,
+        "pairs_caller_binds_partial_default_alias": 150 * k,
+        "set:caller_bindings_of_tag_derived_names": 80,
+        "set:partial_names": 9,
         "pairs_body_reads_by_name": 800 * k,
         "pairs_by_name_read_and_caller_binding": 400 * k,
         "set:caller_bindings_of_names_read_by_name": 120,
